@@ -167,6 +167,10 @@ SITES = [
     S("floorMul", "base/src/utils/mod.rs", r"pub const fn floor_mul\(x: usize, m: usize\) -> usize \{(.*?)\n\}", [], ["x", "m"]),
     # base/src/error.rs: what `Error::offset` does to the position
     S("errOffset", "base/src/error.rs", r"pub fn offset\(mut self, offset: usize\) -> Self \{\s*(self\.pos \+= offset);\s*self\s*\}", [(r"self\.pos \+= ", "pos + ")], ["pos", "offset"]),
+    # base/src/primitive.rs: `[T; N]::validate_unchecked` — element `i` is validated on exactly its own `T::SIZE` bytes and its error is offset by its start
+    S("arrElemStart", "base/src/primitive.rs", r"for i in 0\.\.N \{\s*T::validate_unchecked\(bytes\.get_unchecked\(\((.*?)\)\.\.\)\.get_unchecked\(\.\.T::SIZE\)\)\.map_err", [(r"T::SIZE", "tsize")], ["i", "tsize"]),
+    S("arrElemLen", "base/src/primitive.rs", r"for i in 0\.\.N \{\s*T::validate_unchecked\(bytes\.get_unchecked\(\(i \* T::SIZE\)\.\.\)\.get_unchecked\(\.\.(.*?)\)\)\.map_err", [(r"T::SIZE", "tsize")], ["tsize"]),
+    S("arrElemErrPos", "base/src/primitive.rs", r"\.get_unchecked\(\.\.T::SIZE\)\)\.map_err\(\|e\| e\.offset\((.*?)\)\)\?;\s*\}\s*Ok\(\(\)\)", [(r"T::SIZE", "tsize")], ["i", "tsize"]),
     # base/src/utils/iter.rs
     S("singleMinSize", "base/src/utils/iter.rs", r"impl<T: Flat \+ \?Sized> TypeIter for SingleType<T> \{.*?fn min_size\(&self, pos: usize\) -> usize \{(.*?)\}", [(r"T::ALIGN", "talign"), (r"T::MIN_SIZE", "tmin")], ["pos", "talign", "tmin"]),
     S("twoMinSizeArg", "base/src/utils/iter.rs", r"impl<T: Flat \+ Sized, I: TypeIter> TypeIter for TwoOrMoreTypes<T, I> \{.*?fn min_size\(&self, pos: usize\) -> usize \{\s*self\.next\.min_size\((.*?)\)\s*\}", [(r"T::ALIGN", "talign"), (r"T::SIZE", "tsize")], ["pos", "talign", "tsize"]),
@@ -261,6 +265,9 @@ GUARDS = [
       [(r"data\.as_ptr\(\)\.align_offset\(self\.align\(\)\)", "misalign")], ["misalign"]),
     G("gIterCheckMin", "base/src/utils/iter.rs", r"\} else if (data\.len\(\) [<>=!]+ self\.min_size\(0\)) \{" + ERR,
       [(r"data\.len\(\)", "n"), (r"self\.min_size\(0\)", "tmin")], ["n", "tmin"]),
+    # portable `Bool`: the accepted byte range, as the `match` on the first byte has it
+    G("gBoolInvalid", "portable/src/bool_.rs", r"match (bytes\.get_unchecked\(0\) \{\s*\d+\.\.=\d+ => Ok\(\(\)\),\s*_ =>)" + ERR,
+      [(r"bytes\.get_unchecked\(0\) \{\s*(\d+)\.\.=(\d+) => Ok\(\(\)\),\s*_ =>", r"b < \1 || b > \2")], ["b"]),
     G("gVecValidate", "containers/src/vec.rs", r"if (this\.len\(\) [<>=!]+ this\.capacity\(\)) \{" + ERR,
       [(r"this\.len\(\)", "len"), (r"this\.capacity\(\)", "cap"), (r"Self::DATA_OFFSET", "doff")], ["len", "cap", "doff"]),
     G("gVecFromArray", "containers/src/vec.rs", r"if (vec\.capacity\(\) [<>=!]+ N) \{" + ERR,
